@@ -52,9 +52,9 @@ func (t *termer) addr(v ssa.Value, d int) string {
 	}
 	switch v := v.(type) {
 	case *ssa.FieldAddr:
-		return t.term(v.X, d+1) + "." + fieldName(v.X.Type(), v.Field)
+		return strings.TrimPrefix(t.term(v.X, d+1), "&") + "." + fieldName(v.X.Type(), v.Field)
 	case *ssa.IndexAddr:
-		return t.term(v.X, d+1) + "[" + t.term(v.Index, d+1) + "]"
+		return strings.TrimPrefix(t.term(v.X, d+1), "&") + "[" + t.term(v.Index, d+1) + "]"
 	case *ssa.Alloc, *ssa.FreeVar:
 		if n, ok := varName(v); ok {
 			return n
@@ -93,9 +93,9 @@ func calleeName(c *ssa.CallCommon) string {
 	}
 	switch f := c.Value.(type) {
 	case *ssa.Function:
-		return FuncName(f)
+		return FuncName(originOf(f))
 	case *ssa.MakeClosure:
-		return FuncName(f.Fn.(*ssa.Function))
+		return FuncName(originOf(f.Fn.(*ssa.Function)))
 	case *ssa.Builtin:
 		return f.Name()
 	}
@@ -234,7 +234,7 @@ func (t *termer) call(c *ssa.CallCommon, d int) string {
 	}
 	if f := c.StaticCallee(); f != nil && f.Signature.Recv() != nil && len(args) > 0 {
 		recv := strings.TrimPrefix(args[0], "&")
-		return recv + "." + f.Name() + "(" + strings.Join(args[1:], ", ") + ")"
+		return recv + "." + originOf(f).Name() + "(" + strings.Join(args[1:], ", ") + ")"
 	}
 	return calleeName(c) + "(" + strings.Join(args, ", ") + ")"
 }
@@ -244,4 +244,13 @@ func deref(T types.Type) types.Type {
 		return p.Elem()
 	}
 	return T
+}
+
+// originOf maps an instantiation of a generic function to its generic origin,
+// so that rules name `(*sio.handlerStore[T]).off` whatever T is.
+func originOf(f *ssa.Function) *ssa.Function {
+	if o := f.Origin(); o != nil {
+		return o
+	}
+	return f
 }
